@@ -821,6 +821,10 @@ impl<RW: QueueRW<T>, T> Stream for &FutInnerRecv<RW, T> {
                 }
                 Err((_, TryRecvError::Disconnected)) => return Ok(Async::Ready(None)),
                 Err((_, _)) => {
+                    // Nothing was received, but on a shared broadcast stream the attempt may have
+                    // pinned a slot for a while (and lost the value to another consumer): a sender
+                    // refused because of that pin is parked and nobody else will wake it.
+                    self.prod_wait.notify_all();
                     let count = self.reader.reader.load_count(Relaxed);
                     let cell = self.reader.queue.wait_cell(count);
                     if self.wait.fut_wait(count, cell, &self.reader.queue.writers) {
